@@ -199,7 +199,8 @@ func Walk(v IVisitor, n INode) {
 
 		Walk(v, n.Extends)
 
-		for _, item := range n.List {
+		for i := range n.List {
+			item := &n.List[i] // the element itself, so that the visitor gets the Field of the tree and not of a copy
 			if item.StaticBlock != nil {
 				Walk(v, item.StaticBlock)
 			} else if item.Method != nil {
